@@ -10,7 +10,7 @@ CONSTANTS a, b,    \* two topic names as observed: [segs, acc, s3, s3pre, cache,
                    \*   cache = segment-cache topic keys, etcd = offset + consumer-offset keys, lease = partition lease keys
                    \*   mem / memc = keys of the in-memory metadata store's offsets / consumer-offsets maps
           delEtcd, \* the etcd keys of b (not also keys of a) that DeleteTopic(a) removes
-          delMem   \* the in-memory offsets keys of b (not also keys of a) that DeleteTopic(a) removes
+          delMem   \* the in-memory offsets / consumer-offsets keys of b (not also keys of a) that DeleteTopic(a) removes
 HasPrefix(s, pre) == Len(s) >= Len(pre) /\ SubSeq(s, 1, Len(pre)) = pre
 HasSeparator(x) == Len(x.segs) > 1
 HasDotSegment(x) == \E i \in DOMAIN x.segs : x.segs[i] \in {".", ".."}
